@@ -180,7 +180,8 @@ theorem C09_visit_order_irrelevant (sel : Sel) (b : Nat) (l l' : List (Nat × Ke
   | some h => simp [hperm (h, k)]
 
 /-- **Tie to the source (regenerated facts).**  The model's atomic-op granularity and its three guards are
-those of the current `account/watcher/watcher.go`: both entry points hold the mutex for their whole body,
+those of the current `account/watcher/watcher.go`: both entry points hold the mutex for their whole body
+(and the mutex is touched nowhere else, so no callee releases it midway),
 `NewBlock` visits the buckets with `height <= bestHeight` (`selUpTo`), `AddAccountExpiration` hands off
 immediately iff `expiry <= bestHeight`, and `overdueExpirations` skips an entry iff the key is untracked or
 tracked for another height.  Re-checked against the Go source on every run. -/
@@ -188,7 +189,9 @@ theorem C09_source_shape :
     Gen.C09.newBlockLocked = true ∧ Gen.C09.addLocked = true ∧
     Gen.C09.bucketCond = "height <= bestHeight" ∧
     Gen.C09.addExpiredCond = "expiry <= w.bestHeight" ∧
-    Gen.C09.overdueSkipCond = "!ok || blockHeight != curExpiry" := by
+    Gen.C09.overdueSkipCond = "!ok || blockHeight != curExpiry" ∧
+    Gen.C09.mutexUses = ["NewBlock:w.expirationsMtx.Lock()", "NewBlock:defer w.expirationsMtx.Unlock()",
+      "AddAccountExpiration:w.expirationsMtx.Lock()", "AddAccountExpiration:defer w.expirationsMtx.Unlock()"] := by
   decide
 
 /-! ## The rule of the pinned tree (only the bucket of exactly the new height) violates the property -/
